@@ -196,6 +196,7 @@ def run(repo='/repo', tier='quick'):
     res.assumptions += ['callbacks return documented status codes and do not re-enter the parser', 'hybrid-mode callers of the public htp_tx_state_* functions are outside the rule (their call order is the user\'s)']
     c05f(db, res)
     c05g(db, res)
+    c05h(db, res)
     return res
 
 
@@ -271,3 +272,39 @@ def c05g(db, res):
                 res.check(bad is None, 'C05.g', '%s:%s:receiver-flushed' % (name, hook), 'the receiver is flushed in the function that runs the hook',
                           '%s runs %s and returns successfully without %s(): the last piece of raw trailer data is delivered by the safety net in the completion function, after the COMPLETE callback' % (name, hook, fin), (bad or c).get('loc', f.loc))
     res.floor('C05.g', 'TRAILER hook runs', n, 2)
+
+
+def c05h(db, res):
+    """htp_tx_finalize() delivers TRANSACTION_COMPLETE whenever both sides read COMPLETE; it has no memory of having done so.
+    "At most once" therefore rests on who calls it: the function that has just moved ONE side to COMPLETE (so that the call
+    that completes the second side is the only one that finds both complete). Any other caller - a close handler tidying up,
+    say - finds both sides complete again and delivers the callback a second time."""
+    res.rule('C05.h', 'htp_tx_finalize is called only by the functions that complete a side: every caller has, on every path to the call, stored COMPLETE into request_progress or response_progress of that transaction (directly or in a callee) or is itself a completion function')
+    fin = db.fn.get('htp_tx_finalize')
+    if fin is None:
+        raise AnalysisBroken('htp_tx_finalize not found')
+    # functions that store COMPLETE into a progress field, closed over callers that pass their transaction on
+    completes = set()
+    for n_, g in db.fn.items():
+        if g.blocks and any(lit_name(w.get('r')) in ('HTP_REQUEST_COMPLETE', 'HTP_RESPONSE_COMPLETE') for fld in ('request_progress', 'response_progress') for b, i, w in P.field_writes(g, fld) if w.get('k') == 'assign'):
+            completes.add(n_)
+    n = 0
+    for name, f in sorted(db.fn.items()):
+        if not f.blocks:
+            continue
+        for b, i, c in f.calls('htp_tx_finalize'):
+            n += 1
+            ok = name in completes
+            if not ok:
+                # on every path to the call: a completing callee ran, or the side is known to read COMPLETE already
+                ok = True
+                for atoms, events, end, seq in P.enum_paths_seq(f, (f.entry, -1), stop=lambda bb, ii, st, b=b, i=i: (bb, ii) == (b, i), max_paths=50000):
+                    if not (end[0] == 'stop' or (end[0] == 'return' and tuple(end[1:3]) == (b, i))):
+                        continue
+                    ran = any(x[0] == 'stmt' and any(c2.get('callee') in completes for c2 in nodes(x[3], lambda y: y.get('k') == 'call')) for x in seq)
+                    known = any(a[0].endswith(('request_progress', 'response_progress')) and a[1] == '==' and 'COMPLETE' in str(a[2]) for a, e in atoms)
+                    if not (ran or known):
+                        ok = False
+            res.check(ok, 'C05.h', '%s:calls:htp_tx_finalize' % name, 'the caller has just completed a side of this transaction',
+                      '%s calls htp_tx_finalize() without having moved a side of the transaction to COMPLETE: when both sides are complete already (the usual case at that point) TRANSACTION_COMPLETE is delivered a second time' % name, c['loc'])
+    res.floor('C05.h', 'callers of htp_tx_finalize', n, 2)
